@@ -95,7 +95,13 @@ def _shared_patterns(fn, rd, key, job):
     # resolve a local list to its defining comprehension
     if isinstance(it, ast.Name):
         d = [n for n in ast.walk(fn) if isinstance(n, ast.Assign) and norm(n.targets[0]) == it.id]
-        if len(d) == 1 and isinstance(d[0].value, (ast.ListComp, ast.GeneratorExp)):
+        from ..astutil import list_builder
+        built = list_builder(fn, it.id)
+        if built is not None:
+            g = built.generators[0]
+            it, filters = g.iter, filters + list(g.ifs)
+            key2 = norm(g.target)
+        elif len(d) == 1 and isinstance(d[0].value, (ast.ListComp, ast.GeneratorExp)):
             g = d[0].value.generators[0]
             it, filters = g.iter, filters + list(g.ifs)
             key2 = norm(g.target)
@@ -225,29 +231,30 @@ class Bound:
                 self.defs.setdefault(n.targets[0].id, []).append(n)
         self.problems = []
 
-    def _is_guard(self, iff):
-        t = iff.test
-        return isinstance(t, ast.Compare) and len(t.ops) == 1 and isinstance(t.ops[0], (ast.Gt, ast.GtE)) \
-            and self.x(t.comparators[0]) == "self.fixed_nb_of_instances" \
-            and bool(iff.body) and all(isinstance(s, ast.Raise) for s in iff.body) and self.ev(t.left, iff) == GA
-
     def guard_for(self, node):
-        """is `node` dominated by `if <GE_ALL expr> > self.fixed_nb_of_instances: raise` (as the else-arm of that if,
-        or as a statement that follows it in the same block)?"""
-        x = node
-        while x is not None and x is not self.fn:
-            par = getattr(x, "_parent", None)
-            if isinstance(par, ast.If) and x in par.orelse and self._is_guard(par):
-                return True
-            for field in ("body", "orelse"):
-                block = getattr(par, field, None)
-                if isinstance(block, list) and any(x is s for s in block):
-                    for s in block:
-                        if s is x:
-                            break
-                        if isinstance(s, ast.If) and not s.orelse and self._is_guard(s):
-                            return True
-            x = par
+        """do the conditions under which `node` executes establish <scalar >= every hour of the raw need> <= the fixed
+        count? (`if peak > fixed: raise` before it or around it, in any spelling: negated, mirrored, early exit)"""
+        from ..astutil import path_conditions, positive_atoms
+        stmt = node
+        while stmt is not None and not isinstance(stmt, ast.stmt):
+            stmt = getattr(stmt, "_parent", None)
+        if stmt is None:
+            return False
+        true, false = positive_atoms(path_conditions(stmt, self.fn))
+        for atoms, pol in ((true, True), (false, False)):
+            for t in atoms:
+                if not (isinstance(t, ast.Compare) and len(t.ops) == 1):
+                    continue
+                l, r, op = t.left, t.comparators[0], t.ops[0]
+                if isinstance(op, (ast.Gt, ast.GtE)):
+                    small, big = (r, l) if pol else (l, r)
+                elif isinstance(op, (ast.Lt, ast.LtE)):
+                    small, big = (l, r) if pol else (r, l)
+                else:
+                    continue
+                # established: small <= big
+                if self.x(big) == "self.fixed_nb_of_instances" and self.ev(small, stmt) == GA:
+                    return True
         return False
 
     def x(self, e):
@@ -466,7 +473,10 @@ def r_local(E):
     calls = {c.func.attr: c for c in _calls(fn) if isinstance(c.func, ast.Attribute)}
     checks = []
     loc = calls.get("tz_localize")
-    checks.append(("localisation in the given zone", loc is not None and loc.args and "local_timezone" in norm(loc.args[0])))
+    tzparam = fn.args.args[1].arg if len(fn.args.args) > 1 else "local_timezone"
+    from ..astutil import fully_expanded as _fx
+    checks.append(("localisation in the given zone", loc is not None and loc.args and any(
+        isinstance(x, ast.Name) and x.id == tzparam for x in ast.walk(_fx(loc.args[0], fn)))))
     cv = calls.get("tz_convert")
     checks.append(("conversion to UTC", cv is not None and cv.args and isinstance(cv.args[0], ast.Constant)
                    and str(cv.args[0].value).upper() == "UTC"))
@@ -496,7 +506,7 @@ def r_local(E):
                 if any(isinstance(x, ast.Call) and isinstance(x.func, ast.Attribute) and x.func.attr == "tz_localize"
                        and norm(x.func.value) == "self.value" for x in ast.walk(inner)):
                     return True
-        names = [x.id for x in ast.walk(e) if isinstance(x, ast.Name) and x.id not in ("pd", "np", "self", "local_timezone")]
+        names = [x.id for x in ast.walk(e) if isinstance(x, ast.Name) and x.id not in ("pd", "np", "self", tzparam)]
         frame_names = [n for n in names if n in assigned]
         return bool(frame_names) and all(n in converted for n in frame_names)
     assigned = {norm(n.targets[0]): n for n in ast.walk(fn) if isinstance(n, ast.Assign) and isinstance(n.targets[0], ast.Name)}
@@ -892,6 +902,12 @@ def _flow(fn):
                         for x in ast.walk(t):
                             if isinstance(x, ast.Name):
                                 dep[x.id] = dep.get(x.id, set()) | src
+                elif isinstance(s, ast.Expr) and isinstance(s.value, ast.Call) and isinstance(s.value.func, ast.Attribute) \
+                        and isinstance(s.value.func.value, ast.Name) and s.value.func.attr in (
+                            "append", "extend", "insert", "add", "update", "setdefault"):
+                    # x.append(e): x now also derives from e (and from the tests it sits under)
+                    x = s.value.func.value.id
+                    dep[x] = dep.get(x, set()) | names(s.value) | ctl
                 elif isinstance(s, ast.If):
                     c2 = ctl | names(s.test)
                     walk(s.body, c2)
